@@ -76,13 +76,19 @@ func harnessC06Wait() {
 	vCover("waited")
 }
 
-//verif:entry property=C06 tier=both bounds="one publish to the async handlers above; Shutdown(ctx) racing with a canceller goroutine; store counts Close" cover="shutdown-nil,shutdown-ctx-error" preempt_quick=2 preempt_thorough=3 race=on
+//verif:entry property=C06 tier=both bounds="one publish to the async handlers above, optionally followed by ClearAll; Shutdown(ctx) racing with a canceller goroutine; store counts Close" cover="shutdown-nil,shutdown-ctx-error" preempt_quick=2 preempt_thorough=3 race=on
 func harnessC06Shutdown() {
 	var mu sync.Mutex
 	started, finished := 0, 0
 	cl := &c06Closer{MemoryStore: NewMemoryStore(), finished: &finished, fmu: &mu}
 	bus := New(WithStore(cl))
 	total := c06Workload(bus, 1, &mu, &started, &finished)
+	cleared := vBool()
+	if cleared {
+		// the registry is emptied while the asynchronous work is still in flight
+		// (second-level events published from then on find no handler)
+		ClearAll(bus)
+	}
 	ctx, cancel := context.WithCancel(context.Background())
 	go func() {
 		vYield()
@@ -92,12 +98,17 @@ func harnessC06Shutdown() {
 	cl.mu.Lock()
 	closes, doneAtClose := cl.closes, cl.doneAtClose
 	cl.mu.Unlock()
+	mu.Lock()
+	startedAtReturn, finishedAtReturn := started, finished
+	mu.Unlock()
 	if err == nil {
-		mu.Lock()
-		vAssert(finished == total, "shutdown-nil-only-after-all-async-work-finished")
-		mu.Unlock()
+		if !cleared {
+			vAssert(finishedAtReturn == total, "shutdown-nil-only-after-all-async-work-finished")
+			vAssert(doneAtClose == total, "store-closed-only-after-work-finished")
+		}
+		vAssert(finishedAtReturn == startedAtReturn, "shutdown-nil-only-after-all-async-work-finished")
+		vAssert(doneAtClose == finishedAtReturn, "store-closed-only-after-work-finished")
 		vAssert(closes == 1, "shutdown-nil-closes-store-exactly-once")
-		vAssert(doneAtClose == total, "store-closed-only-after-work-finished")
 		vCover("shutdown-nil")
 	} else {
 		vAssert(err == ctx.Err(), "shutdown-returns-context-error")
@@ -108,6 +119,12 @@ func harnessC06Shutdown() {
 	cl.mu.Lock()
 	vAssert(cl.closes == closes, "store-not-closed-later")
 	cl.mu.Unlock()
+	if err == nil {
+		// nothing was still waiting to start when Shutdown reported completion
+		mu.Lock()
+		vAssert(started == startedAtReturn, "shutdown-nil-only-after-all-async-work-finished")
+		mu.Unlock()
+	}
 }
 
 //verif:entry property=C06 tier=both bounds="one publish to TWO async handlers of the same event type (each yields mid-way) with an optional synchronous handler between them; every interleaving within the preemption bound; Wait" cover="waited" preempt_quick=2 preempt_thorough=3 race=on
